@@ -4,6 +4,7 @@ import Iec.Drv.Srv104
 import Iec.Drv.Cli104
 import Iec.Drv.Dispatch
 import Iec.Drv.Locks
+import Iec.Drv.Link101
 /-
 iecdrv — line-protocol driver: one operation per input line, one canonical result
 line per operation.  The C harnesses execute the same lines on the real code; the
@@ -15,6 +16,7 @@ structure DrvState where
   asdu : Iec.Drv.Asdu.St := {}
   srv : Iec.Drv.Srv104.St := {}
   cli : Iec.Drv.Cli104.St := {}
+  ll : Iec.Drv.Link101.St := {}
 
 def dispatch (st : DrvState) (ws : List String) : DrvState × String :=
   match ws with
@@ -38,7 +40,10 @@ def dispatch (st : DrvState) (ws : List String) : DrvState × String :=
               | none =>
                 match Iec.Drv.Locks.handle ws with
                 | some s => (st, s)
-                | none => (st, "bad-op")
+                | none =>
+                  match Iec.Drv.Link101.handle st.ll ws with
+                  | some (a, s) => ({ st with ll := a }, s)
+                  | none => (st, "bad-op")
 
 partial def loop (h : IO.FS.Stream) (out : IO.FS.Stream) (st : DrvState) : IO Unit := do
   let line ← h.getLine
